@@ -86,6 +86,13 @@ def rule_thrust(ctx):
     ct = m.func('Bada3FuelBurnModel.calculate_thrust')
     defs = [st for t, st, how in stores_to(ct.node) if isinstance(t, ast.Name) and t.id == 'thrust']
     ret = returned_expr(ct.node)
+    if ret is not None and norm(ret) != 'thrust':
+        # the last step is written directly in the return: treat it as a final definition
+        pseudo = ast.Assign(targets=[ast.Name('thrust', ast.Store())], value=ret)
+        ast.copy_location(pseudo, ret)
+        pseudo.end_lineno = getattr(ret, 'end_lineno', ret.lineno)
+        defs = defs + [pseudo]
+        ret = ast.Name('thrust', ast.Load())
     if ret is None or norm(ret) != 'thrust' or len(defs) < 2:
         ctx.undecided('C19-R2', ct, 'thrust', 'thrust is not built by successive re-definitions of one local')
     # definite wrong forms: a lower *bound* (clip / maximum) instead of substitution where negative
